@@ -26,7 +26,7 @@ Definition cev (s : est) (c : cpc) : option event :=
   match c with
   | KStart => if cbset s then ev_ kW cellCstate v_callbackWaitExit 0 0 else None
   | KLdIn => ev_ kR cellInproc (inproc s) 0 0
-  | KHalf => ev_ kCAS cellState c_streamOpened c_streamHalfClosed (b2z (st s =? c_streamOpened))
+  | KHalf => ev_ kCAS cellState c_streamOpened v_streamLocalHalfClosed (b2z (st s =? c_streamOpened))
   | CLd => ev_ kR cellState (st s) 0 0
   | CCas old => ev_ kCAS cellState old c_streamClosed (b2z (st s =? old))
   | CWait _ => if wg s <=? 0 then ev_ kLock cellWg 0 0 0 else ev_ kBusy cellWg 0 0 0
@@ -58,7 +58,7 @@ Definition step_ev (s : est) (w : who) : option event :=
                           end
               end
   | WClo i => match nth_error (clos s) i with None => None | Some c => cev s c end
-  | WSet => match spc s with SStore => ev_ kW cellInproc 0 0 0 | _ => None end
+  | WSet => match spc s with SCas => ev_ kCAS cellInproc 0 1 (b2z (inproc s =? 0)) | _ => None end
   | WUser _ => None
   end.
 
@@ -71,7 +71,7 @@ Definition terminal (s : est) (w : who) : bool :=
   | WUser _ => true
   end.
 (* the harness puts an (event-less) scheduling point in front of SetCallbacks, so that installing the
-   callbacks and the store of callbackInProcess are two implementation steps *)
+   callbacks and the CAS on callbackInProcess are two implementation steps *)
 Definition forced (s : est) (w : who) : bool :=
   match w with WSet => match spc s with SIdle => true | _ => false end | _ => false end.
 Definition silent (s : est) (w : who) : bool :=
